@@ -6,7 +6,9 @@ export CARGO_NET_OFFLINE=true
 mkdir -p work build evidence replays
 cp -f "${VERIF_REPO:-/repo}/Cargo.lock" harness/inproc/Cargo.lock
 (cd harness/inproc && cargo build --offline -q 2>&1 | grep -v '^warning\|^ *|\|^ *=\|^ *-->\|^$' || true)
+(cd harness/inproc && cargo build --offline -q --profile noassert 2>&1 | grep -v '^warning\|^ *|\|^ *=\|^ *-->\|^$' || true)
 test -x build/target-inproc/debug/dm_inproc
+test -x build/target-inproc/noassert/dm_inproc
 python3 - <<'PY'
 import sys, os
 sys.path.insert(0, "lib")
